@@ -6,6 +6,7 @@ import (
 	"reflect"
 
 	"github.com/osteele/liquid/render"
+	"github.com/osteele/liquid/values"
 )
 
 func includeTag(source string) (func(io.Writer, render.Context) error, error) {
@@ -22,7 +23,7 @@ func includeTag(source string) (func(io.Writer, render.Context) error, error) {
 			rel, ok = rv.String(), true // a named string type
 		}
 		if !ok {
-			return ctx.Errorf("include requires a string argument; got %v", value)
+			return ctx.Errorf("include requires a string argument; got %v", values.DeepToLiquid(value))
 		}
 		filename := filepath.Join(filepath.Dir(ctx.SourceFile()), rel)
 		s, err := ctx.RenderFile(filename, map[string]any{})
